@@ -1,6 +1,6 @@
 (* C16 — ending a session by any path releases everything it held.
    Statements only; proofs are in Proofs/TeardownProofs.v. Model: Model/Teardown.v (the code after the
-   fix commits 81d6b2b, b42d48d, f58f3aa, fe50cc3 and 9686c62).
+   fix commits 81d6b2b, b42d48d, f58f3aa, fe50cc3, 9686c62, ac242d7 and c878197).
 
    "Releases everything" is [dheld s' e = []] (DHCP), [pheld s' i ip = []] (PPPoE), [sheld s' mac ip = []]
    (subscriber.Manager): the summary functions list the resources of the property text that a session —
@@ -77,6 +77,38 @@ Theorem C16_dhcp_vlan_cache_empty : forall c ops, cvlan (drun c ops) = [].
 Proof. exact d_vlan_cache_always_empty. Qed.
 Print Assumptions C16_dhcp_vlan_cache_empty.
 
+(* renewals. A renewing REQUEST that carries no Circuit-ID (no option 82 at all, or relay information
+   without the Circuit-ID sub-option) leaves the lease on its circuit-id, address and accounting session:
+   the ending paths above, which remove the circuit-id entries the LEASE records, still find them *)
+Theorem C16_dhcp_renewal_keeps_circuit : forall c s mac relayed l,
+  aget mac (leases s) = Some l ->
+  exists l', aget mac (leases (fst (fst (dstep c s (Request mac (l_ip l) 0 relayed))))) = Some l' /\
+             l_cid l' = l_cid l /\ l_ip l' = l_ip l /\ l_sid l' = l_sid l.
+Proof. exact d_renewal_keeps_circuit. Qed.
+Print Assumptions C16_dhcp_renewal_keeps_circuit.
+
+(* ... and a renewal from ANOTHER circuit takes the old circuit's bindings away at once (index entry and
+   both kernel entries; after fix c878197), so none is left under a circuit-id the lease no longer records.
+   Guard: the circuit-ID index still points at this client's lease (it does unless another MAC took the
+   circuit over through the index: C02's K02a) *)
+Theorem C16_dhcp_renewal_moved_drops_old : forall c s mac cid relayed l,
+  aget mac (leases s) = Some l -> cid <> 0 -> l_cid l <> 0 -> cid <> l_cid l ->
+  (match aget (l_cid l) (bycid s) with Some p => fst p =? mac | None => false end) = true ->
+  let s' := fst (fst (dstep c s (Request mac (l_ip l) cid relayed))) in
+  aget (l_cid l) (bycid s') = None /\ aget (l_cid l) (chash s') = None /\ aget (l_cid l) (csub s') = None /\
+  exists l', aget mac (leases s') = Some l' /\ l_cid l' = cid.
+Proof. exact d_renewal_moved_drops_old. Qed.
+Print Assumptions C16_dhcp_renewal_moved_drops_old.
+
+(* fault injection (c_full is part of the configuration every theorem above quantifies over): with
+   qos_ingress full the policy is half installed — egress bucket in the kernel, nothing tracked by the
+   manager — the state is inside the guard, the session holds the bucket, and RELEASE removes it *)
+Example C16_dhcp_half_installed_policy_released :
+  exists l, aget 1 (leases stDf) = Some l /\ dwf cfgDf stDf 1 l = true /\
+            smem 2 (qos stDf) = true /\ smem 2 (qosi stDf) = false /\ smem 2 (qost stDf) = false /\
+            dheld (fst (fst (dstep cfgDf stDf (Release 1)))) (dsess_lease 1 l) = [].
+Proof. exact d_half_installed_example. Qed.
+
 Example C16_dhcp_guard_satisfiable :
   exists l, aget 1 (leases stD) = Some l /\ dwf cfgD stD 1 l = true /\ dheld stD (dsess_lease 1 l) <> [] /\
             l_ip l = 2 /\ l_cid l = 1 /\ l_sid l = 1.
@@ -134,6 +166,27 @@ Theorem C16_pppoe_teardown_twice : forall c s i,
   let s1 := fst (fst (pcleanup c s i)) in pcleanup c s1 i = (s1, [], []).
 Proof. exact p_cleanup_twice. Qed.
 Print Assumptions C16_pppoe_teardown_twice.
+
+(* two paths at once: while one teardown path (administrative / RADIUS disconnect, the shutdown pass, the
+   client's PADT) is inside cleanup for a session, a second teardown path for the same session changes
+   nothing in the session table, the MAC index, the pool or the Accounting-Stop records and adds no event
+   except a repeated PADT — the outcome is that of the first path alone.  (Sequential model of the
+   interleaving; the differential run forces the interleaving on the real code: docs/C16.md.) *)
+Theorem C16_pppoe_two_paths_at_once : forall c s i held a b,
+  (a = TdTerm i \/ exists x, aget i (heap s) = Some x /\ a = TdPadt i (ps_mac x)) -> td_of i b ->
+  let r1 := pstep c s a in
+  let r2 := pstep c s (POverlap held a b) in
+  tbl (fst (fst r2)) = tbl (fst (fst r1)) /\ midx (fst (fst r2)) = midx (fst (fst r1)) /\
+  pavail (fst (fst r2)) = pavail (fst (fst r1)) /\ palloc (fst (fst r2)) = palloc (fst (fst r1)) /\
+  pstops (fst (fst r2)) = pstops (fst (fst r1)) /\
+  filter not_padt (snd (fst r2)) = filter not_padt (snd (fst r1)).
+Proof. exact p_two_paths_at_once. Qed.
+Print Assumptions C16_pppoe_two_paths_at_once.
+
+Example C16_pppoe_two_paths_example :
+  let r := pstep cfgP stP (POverlap true (TdTerm 1) (TdPadt 1 1)) in
+  snd (fst r) = [(4, 1); (3, 1); (2, 1)] /\ palloc (fst (fst r)) = [] /\ pstops (fst (fst r)) = [1] /\ tbl (fst (fst r)) = [].
+Proof. exact p_two_paths_example. Qed.
 
 (* a PADT / LCP Terminate-Request / PAP reject for a session that is gone ends nothing *)
 Theorem C16_pppoe_frame_after_end : forall c s id mac,
